@@ -181,7 +181,9 @@ def small_n4(tag, pred, n):
 # ---- an absorbing mapping next to EVERY other mapping shape (trigger x output, normal repeat): what the flush of absorbed keys
 # does to a neighbour that consumes, outputs or shares the absorbed keys
 ABS_MAPPINGS = [M(["C", "A"], ["D"], N, ["C"]), M(["LEFTSHIFT", "A"], ["LEFTSHIFT", "D"], N, ["LEFTSHIFT"]),
-                M(["LEFTCTRL", "LEFTSHIFT", "A"], ["D"], N, ["LEFTCTRL", "LEFTSHIFT"]), M(["LEFTCTRL", "LEFTSHIFT", "A"], ["LEFTSHIFT", "B"], D, ["LEFTSHIFT"])]
+                M(["LEFTCTRL", "LEFTSHIFT", "A"], ["D"], N, ["LEFTCTRL", "LEFTSHIFT"]), M(["LEFTCTRL", "LEFTSHIFT", "A"], ["LEFTSHIFT", "B"], D, ["LEFTSHIFT"]),
+                # an absorbing chord whose output is its own final key (the key is then both physically held and a mapping's output)
+                M(["C", "A"], ["A"], N, ["C"]), M(["LEFTSHIFT", "A"], ["A"], N, ["LEFTSHIFT"])]
 
 
 def abs_cross(tag="absx", every=1):
